@@ -700,7 +700,8 @@ class Sim(object):
                 self.func_calls[qn] = n
                 t = self.cur
                 for ent in list(plan):
-                    if ent[0] == n:
+                    # [k, j, dur]: the k-th call; [None, j, dur, t]: the first call at or after simulated time t
+                    if ent[0] == n or (ent[0] is None and len(ent) > 3 and self.now >= ent[3]):
                         plan.remove(ent)
                         sp = [p for p in (t.stall_plan or []) if p[0] < (1 << 59)]
                         sp.append((t.steps + ent[1], ent[2]))
